@@ -5,7 +5,7 @@
 # usage: tools/eval_refactors.sh <directory holding ./check (a copy of /verif)> <out file>
 SNAP=$1; OUT=$2; WT=${WT:-/tmp/wtR}
 : > $OUT
-for k in 1 2 3 4 5 6 7 8; do
+for k in ${KS:-1 2 3 4 5 6 7 8 9 10 11 12 13 14 15 16}; do
   git -C $WT checkout -- psec
   git -C $WT apply $(cd $(dirname $0)/.. && pwd)/refactorings/R$k/patch.diff || { echo "R$k apply failed" >> $OUT; continue; }
   for i in 01 02 03 04 05 06 07 08 09 10 11 12 13 14 15 16 17 18 19 20; do
